@@ -1,17 +1,21 @@
 #!/bin/bash
-# usage: lib/seedtest.sh <worktree> <seed-id> <PROP> [tier] : applies <worktree>/seed.patch to /repo, runs the check, reverts.
+# usage: lib/seedtest.sh <worktree-with-seed.patch> <seed-id> <PROP> [tier]
+# Applies <worktree>/seed.patch (or /verif/seeded/<id>/patch.diff) in a throw-away worktree of /repo's HEAD and runs the
+# check against it with VERIF_REPO (so that /repo itself, and anything running against it, is left alone).
+# The registered checks themselves always build from /repo; `git -C /repo apply` + check + `git checkout -- .` is equivalent.
 wt=$1; id=$2; prop=$3; tier=${4:-quick}
-cd /repo || exit 2
-if [ -n "$(git status --short)" ]; then echo "/repo not clean"; exit 2; fi
-git apply "$wt/seed.patch" || { echo "patch does not apply"; exit 2; }
-git diff --stat | tail -1
+patch="$wt/seed.patch"; [ -f "$patch" ] || patch="/verif/seeded/$id/patch.diff"
+sw=/tmp/seedwt.$$
+git -C /repo worktree add -q --detach $sw HEAD || exit 2
+( cd $sw && git apply "$patch" ) || { echo "patch does not apply"; git -C /repo worktree remove --force $sw; exit 2; }
+( cd $sw && git diff --stat | tail -1 )
 cd /verif
 s=$(date +%s)
-./check $prop $tier > /tmp/seedtest.$id.out 2>&1; rc=$?
+VERIF_REPO=$sw ./check $prop $tier > /tmp/seedtest.$id.out 2>&1; rc=$?
 e=$(date +%s)
-git -C /repo checkout -- .
-git -C /repo status --short
+git -C /repo worktree remove --force $sw
 echo "seed $id prop $prop tier $tier rc=$rc time=$((e-s))s"
 grep -m3 -A2 "VIOLATION" /tmp/seedtest.$id.out | cut -c1-400
 tail -1 /tmp/seedtest.$id.out | cut -c1-200
+git -C /verif checkout -q -- evidence 2>/dev/null
 exit $rc
